@@ -313,7 +313,69 @@ pub fn filter_vector(specs: &[FeatureSpec], l: &Value) -> Value {
                 .is_some_and(|id| closure_set.iter().any(|c| c == id))
         },
     ));
-    json!({"received": Value::Array(log.borrow().clone()), "expr_text": text})
+    // The same vector once more through `runner::Basic`, as an application
+    // would write it: the CLI options first, the hooks added afterwards with
+    // the `Cucumber` builder.  Which scenarios get started?
+    let started = {
+        let mut features: Vec<gherkin::Feature> =
+            specs.iter().map(FeatureSpec::build).collect();
+        for f in &mut features {
+            f.scenarios.iter_mut().for_each(mark);
+            for r in &mut f.rules {
+                r.scenarios.iter_mut().for_each(mark);
+            }
+        }
+        let re_set = str_set(&v["reSet"]);
+        let closure_set = str_set(&v["closure"]);
+        let re = (v["useRe"] == true).then(|| {
+            let mut alt = re_set.clone();
+            alt.push("F1".to_owned());
+            alt.push("R1".to_owned());
+            regex::Regex::new(&format!("^(?:{})$", alt.join("|"))).unwrap()
+        });
+        let tags = (v["useTags"] == true).then(|| {
+            text.parse::<gherkin::tagexpr::TagOperation>().unwrap()
+        });
+        let rec = crate::writers::RecW::default();
+        let wlog = Rc::clone(&rec.log);
+        let app = CucumberApp::<RWorld, _, (), _, _, cli::Empty>::custom(
+            FixedParser(features),
+            cucumber::runner::Basic::<RWorld>::default(),
+            cucumber::writer::AssertNormalized::new(rec),
+        )
+        .with_cli(cli::Opts {
+            re_filter: re,
+            tags_filter: tags,
+            parser: cli::Empty,
+            runner: cucumber::runner::basic::Cli::default(),
+            writer: cli::Empty,
+            custom: cli::Empty,
+        })
+        .before(|_, _, _, _| Box::pin(async {}))
+        .after(|_, _, _, _, _| Box::pin(async {}));
+        let _wr = futures::executor::block_on(app.filter_run(
+            (),
+            move |_: &gherkin::Feature,
+                  _: Option<&gherkin::Rule>,
+                  s: &gherkin::Scenario| {
+                s.tags
+                    .iter()
+                    .find_map(|t| t.strip_prefix("id_"))
+                    .is_some_and(|id| closure_set.iter().any(|c| c == id))
+            },
+        ));
+        let mut ids: Vec<String> = wlog
+            .borrow()
+            .iter()
+            .filter_map(|l| l.get("ev"))
+            .filter(|e| e["t"] == "Sc" && e["k"] == "Started")
+            .filter_map(|e| e["s"].as_str().map(str::to_owned))
+            .collect();
+        ids.sort();
+        ids
+    };
+    json!({"received": Value::Array(log.borrow().clone()), "expr_text": text,
+           "started": started})
 }
 
 // ------------------------------------------------------------- C17 ----
